@@ -437,6 +437,57 @@ func c15TempFile() string {
 	return filepath.Join(dir, fmt.Sprintf("c15-%d-%d.json", os.Getpid(), runner.Unique()))
 }
 
+// c15Diff compares two values of any type field by field, whatever the field set is (reflect): "" when they are
+// equal values — a nil slice / map equals an empty one, pointer fields (parent links) are not part of the value —
+// else the path of the first difference.  It lets the judge decide losslessness on the implementation's own values
+// also for fields the Lean model does not know.
+func c15Diff(a, b reflect.Value, path string) string {
+	switch a.Kind() {
+	case reflect.Struct:
+		for i := 0; i < a.NumField(); i++ {
+			if d := c15Diff(a.Field(i), b.Field(i), path+"."+a.Type().Field(i).Name); d != "" {
+				return d
+			}
+		}
+	case reflect.Slice, reflect.Array:
+		if a.Len() != b.Len() {
+			return path + ":len"
+		}
+		for i := 0; i < a.Len(); i++ {
+			if d := c15Diff(a.Index(i), b.Index(i), fmt.Sprintf("%s[%d]", path, i)); d != "" {
+				return d
+			}
+		}
+	case reflect.Map:
+		if a.Len() != b.Len() {
+			return path + ":len"
+		}
+		for _, k := range a.MapKeys() {
+			bv := b.MapIndex(k)
+			if !bv.IsValid() {
+				return path + ":key"
+			}
+			if d := c15Diff(a.MapIndex(k), bv, path+"[key]"); d != "" {
+				return d
+			}
+		}
+	case reflect.Ptr, reflect.Interface, reflect.Func, reflect.Chan, reflect.UnsafePointer:
+		return ""
+	default:
+		if !reflect.DeepEqual(a.Interface(), b.Interface()) {
+			return path
+		}
+	}
+	return ""
+}
+
+func c15Same(a, b poly.Sequence) string {
+	if d := c15Diff(reflect.ValueOf(a), reflect.ValueOf(b), ""); d != "" {
+		return "diff:" + d
+	}
+	return "same"
+}
+
 // c15Longer is a value whose every serialisation is longer than x's: it is written to a path first, so
 // that the write of x that follows lands on a file that already holds a longer document (a Write that
 // does not truncate leaves the old tail behind).
@@ -464,6 +515,7 @@ func init() {
 		if err != nil {
 			return nil, err
 		}
+		refl := []string{c15Same(x, rt)}
 		path := c15TempFile()
 		defer os.Remove(path)
 		polyjson.Write(c15Longer(x), path) // history on one path: a longer document first
@@ -473,6 +525,7 @@ func init() {
 			return nil, err
 		}
 		rd := polyjson.Read(path)
+		refl = append(refl, c15Same(x, rd))
 		crd, err := c15Canon(rd)
 		if err != nil {
 			return nil, err
@@ -489,6 +542,7 @@ func init() {
 			return nil, err
 		}
 		rd2 := polyjson.Read(hpath)
+		refl = append(refl, c15Same(x, rd2))
 		crd2, err := c15Canon(rd2)
 		if err != nil {
 			return nil, err
@@ -507,7 +561,9 @@ func init() {
 		for i := range rd2.Meta.References {
 			rd2.Meta.References[i].Title = "edited"
 		}
-		crd3, err := c15Canon(polyjson.Read(hpath))
+		rd3 := polyjson.Read(hpath)
+		refl = append(refl, c15Same(x, rd3))
+		crd3, err := c15Canon(rd3)
 		if err != nil {
 			return nil, err
 		}
@@ -520,11 +576,14 @@ func init() {
 		if err := os.Rename(tmp, hpath); err != nil {
 			return nil, err
 		}
-		crd4, err := c15Canon(polyjson.Read(hpath))
+		rd4 := polyjson.Read(hpath)
+		refl = append(refl, c15Same(x, rd4))
+		crd4, err := c15Canon(rd4)
 		if err != nil {
 			return nil, err
 		}
 		fromLean := polyjson.Parse([]byte(a[1]))
+		refl = append(refl, c15Same(x, fromLean))
 		cfl, err := c15Canon(fromLean)
 		if err != nil {
 			return nil, err
@@ -544,7 +603,7 @@ func init() {
 		gsx := c15GetSeqs(x)
 		return []string{string(jtext), crt, gsx, same(c15GetSeqs(rt), gsx), string(ftext), same(crd, crt), same(cfl, crt),
 			gbx, same(gbrt, gbx), gfx, same(gfrt, gfx),
-			same(crd2, crt), same(crd3, crt), same(crd4, crt)}, nil
+			same(crd2, crt), same(crd3, crt), same(crd4, crt), strings.Join(refl, ",")}, nil
 	})
 	runner.Register("c15dec", func(a []string) ([]string, error) {
 		c, err := c15Canon(polyjson.Parse([]byte(a[0])))
@@ -606,6 +665,7 @@ func init() {
 		})
 		var rt poly.Sequence
 		crt := step(func() (string, error) { rt = polyjson.Parse(jtext); return c15Canon(rt) })
+		refl := step(func() (string, error) { return c15Same(p, rt), nil })
 		via := step(func() (string, error) { return c15Text(build(rt)), nil })
 		gsp := step(func() (string, error) { return c15GetSeqs(p), nil })
 		gsrt := step(func() (string, error) { return c15GetSeqs(rt), nil })
@@ -645,6 +705,6 @@ func init() {
 			return v
 		}
 		return []string{"ok", cp, direct, js, crt, same(via, direct), gsp, same(gsrt, gsp), same(viaFile, direct),
-			same(viaPipe, direct), same(viaWrite, direct)}, nil
+			same(viaPipe, direct), same(viaWrite, direct), refl}, nil
 	})
 }
